@@ -281,6 +281,7 @@ func blockOnListChange(ctx *cmdContext, keyName string, timeoutNs int64, op func
 		func() string { return fmt.Sprintf("key '%s'", keyName) },
 		func() *wakeSignal { return ctx.dsc.ds.enterListBlock(keyName) },
 		func(ws *wakeSignal) { ctx.dsc.ds.reenterListBlock(ws, []string{keyName}) },
+		[]string{keyName},
 	)
 }
 
@@ -292,6 +293,7 @@ func blockOnListChangeMultiKey(ctx *cmdContext, keyNames []string, timeoutNs int
 		func() string { return fmt.Sprintf("keys %s", keyNames) },
 		func() *wakeSignal { return ctx.dsc.ds.enterListMultiBlock(keyNames) },
 		func(ws *wakeSignal) { ctx.dsc.ds.reenterListBlock(ws, keyNames) },
+		keyNames,
 	)
 }
 
@@ -302,6 +304,7 @@ func blockOnListChangeWorker(
 	keyNameStr func() string,
 	blockFn func() *wakeSignal,
 	reblockFn func(ws *wakeSignal),
+	keyNames []string,
 ) (output respValue) {
 
 	// initial non blocking call
@@ -325,7 +328,7 @@ func blockOnListChangeWorker(
 	verifPoint("before-register", ctx.cs.id, 0)
 	ws := blockFn()
 	verifPoint("after-register", ctx.cs.id, ws.id)
-	defer ctx.dsc.ds.leaveListBlock(ws)
+	defer ctx.dsc.ds.leaveListBlock(ws, keyNames)
 
 	// pushes done by this command itself must wake the other waiters, not this client
 	ctx.dsc.waiting = ws
